@@ -15,12 +15,18 @@ def finish(prop, run, witnesses, known_role=None, bounds=None, functions=None, s
     vacuous = [w for w in witnesses if res.get(w) != "failed"]
     known = report.load_known()
     violations = []
+    played = 0
     for h in failed:
         sig = {"engine": "K", "crate": run.crate, "harness": h}
         k = report.matches(sig, known, prop)
         if k is not None:
             print("KNOWN-FINDING: property=%s %s" % (prop, k.get("description", k["id"])))
             continue
+        if violations or played >= 2:
+            # one natively reproduced counterexample is enough to report; the other failing harnesses are listed in evidence
+            print("NOTE property=%s kani harness %s also failed (not replayed)" % (prop, h))
+            continue
+        played += 1
         ok, path, log = kani_run.playback(run.crate, h, os.path.join(report.VERIF, "work", "replays", prop))
         rp = report.write_replay(prop, "kani_%s_%s" % (run.crate, h), {"harness": h, "crate": run.crate, "playback_crate": path,
                                                                          "reproduced_natively": ok, "log": log,
